@@ -33,6 +33,7 @@ def lines(ctx, name):
 
 def collect(ctx, tag):
     cases = {l.split("|")[0]: l for l in lines(ctx, "cases.txt")}
+    hist = {l.split("|")[0]: l for l in lines(ctx, "history.txt")}
     for l in lines(ctx, "oracle.txt"):
         f = l.split("|", 3)
         if f[0] != "V":
@@ -41,6 +42,8 @@ def collect(ctx, tag):
         c = cases.get(sid, "")
         ctx.violation(key, "%s [scenario %s %s]" % (what, sid, c.split("|")[1] if c else ""),
                       {"scenario": sid, "case": c[:6000], "search": tag,
+                       "history_before_the_shared_transaction": hist.get(sid, "")[:20000],
+                       "history_format": "id|where the older savepoint (handle 900) is taken, after how many earlier transactions read transactions are begun (they stay live until after the shared transaction ended), after how many grants of the durable commit a Savepoint is dropped on another thread, (thread, grants) of a thread that is stopped until the others finished|earlier transactions: D durable / N non-durable : table.key=value (put) table.key- (delete)",
                        "format": "id|kind|pre-existing savepoint|end (0 durable, 1 non-durable, 2 abort)|programs per thread (O open, P put, D delete, C close, S savepoint, R drop savepoint; table ids >= 100 are multimap; savepoint handles 500..899 are persistent_savepoint() calls)|executed log tid:label:tables-mutex-held. "
                                  "kind cgapr-sp<i>-r<js>-g<g> / hist-*: earlier whole transactions (regenerated from the seed), older savepoint taken before the i-th, read transactions begun after the js-th held live, a Savepoint dropped after g grants of the durable commit; psp-park-n<n>-a<a>-k<k>: thread a stopped after k grants until the others finished",
                        "how_to_replay": "harness bin c16: VERIF_SEED=%d c16 %s" % (ctx.seed, sid)})
